@@ -457,6 +457,14 @@ def plan(plan, tier, seed):
         vC02g.units(plan)
     except AnchorLost as e:
         plan.anchor_errors.append(("C02.grammar.*", str(e)))
+    nab = "C02.grammar.alt_best.longest_successful_alternative"
+    plan.ob(nab, "verus", "proved", functions=["src/syntax/src/lib.rs: alt_best (whole body)"],
+            what="for every table of alternatives and every behaviour of the alternatives: a success of alt_best is the result of one of the alternatives on this input and no alternative succeeds further into the input (longest match); if no alternative fails hard, one succeeding alternative suffices for success")
+    try:
+        plan.verus.append(VerusUnit("c02_alt_best", vC02g.alt_best_unit(read_repo("src/syntax/src/lib.rs")), {"alt_best": nab}, ["canary_alt_best"]))
+    except AnchorLost as e:
+        plan.anchor_errors.append((nab, str(e)))
+    plan.dropped.append(vC02g.alt_best_fn.__doc__.strip())
     plan.dropped.append(vC02g.__doc__.strip())
     plan.functions += ["src/interpreter/src/expressions.rs: term() — operator dispatch table and fold loop",
                        "src/syntax/src/expressions.rs: formula, l1, l2, l3, l4, l5, l6, l7, factor, parenthetical_term, negate_factor, not_factor, logic_operator, comparison_operator, add_sub_operator, mul_div_operator, matrix_operator, power_operator"]
